@@ -24,12 +24,38 @@ def propagate_metadata(func: Callable) -> Callable:
     return wrapper
 
 
+def pandas_arrow_dictionary_to_categorical(data: Any) -> Any:
+    """
+    Convert a pandas series of Arrow dictionary-encoded values (pandas'
+    Arrow-backed categorical, `ArrowDtype(pyarrow.dictionary(...))`) into the
+    native categorical dtype, keeping the declared categories and their order.
+    pandas offers none of its categorical API (`.cat`, `astype("category")`) on
+    such columns. Anything else is returned as is.
+    """
+    if isinstance(data, pandas.Series) and isinstance(data.dtype, pandas.ArrowDtype):
+        import pyarrow
+
+        if pyarrow.types.is_dictionary(data.dtype.pyarrow_dtype):
+            return pandas.Series(
+                pyarrow.chunked_array(data.array.__arrow_array__())
+                .unify_dictionaries()
+                .to_pandas()
+                .array,
+                index=data.index,
+                name=data.name,
+            )
+    return data
+
+
 def narwhals_categories(series: Any) -> Optional[list]:
     """
     The declared categories (in declared order) of a categorical narwhals
     series, or `None` if the series is not categorical.
     """
     if series.dtype in (nw.Categorical, nw.Enum):
+        native = pandas_arrow_dictionary_to_categorical(series.to_native())
+        if isinstance(native, pandas.Series):
+            return list(native.cat.categories)
         return series.cat.get_categories().to_list()
     return None
 
